@@ -28,8 +28,18 @@ ASSUMPTIONS = ["list.sort / sorted are stable and use __lt__ only"]
 
 
 def _static_elem(ctx: Ctx, f: Func, it: ast.AST) -> List[Class]:
-    t = ctx.types.expr_type(it, f)
-    return classes_of(elem(t))
+    """Declared element classes of the iterated expression; for `self.X` the union over the subclasses that
+    inherit the method (Acl inherits AceGroup's loops but holds groups too)."""
+    out: List[Class] = []
+    classes = [None]
+    if f.cls is not None and chain(it) and chain(it)[0] == "self":
+        classes = list(ctx.prog.subclasses(f.cls)) or [None]  # an override may still reach f through super()
+    for c in classes:
+        t = ctx.types.expr_type(it, f, c) if c is not None else ctx.types.expr_type(it, f)
+        for x in classes_of(elem(t)):
+            if x not in out:
+                out.append(x)
+    return out
 
 
 def linear_loop(ctx: Ctx, rep: Report, f: Func, loop: Node, what: str, allow_zero_for: Set[str] = frozenset({"Remark"})) -> None:
@@ -353,7 +363,82 @@ def r15_5(ctx: Ctx, rep: Report) -> None:
         rep.violation("Acl.tcam_count", "value", "the ACL estimate must be the group estimate plus exactly one", where(f))
 
 
+def r15_6(ctx: Ctx, rep: Report) -> None:
+    """Additivity of the estimate: per item the counter advances by the nested estimate (group), by nothing (remark),
+    by 1 (plain ACE) or by a product of two per-side member counts (ACE with address groups)."""
+    rep.rule("R15.6")
+    f = ctx.func("AceGroup.tcam_count")
+    cfg = ctx.cfg(f)
+    loops = [n for n in cfg.live if n.kind == "for"]
+    rep.require(bool(loops), "AceGroup.tcam_count: loop vanished")
+    loop = loops[0]
+    var = src(loop.ast.target)
+    static = _static_elem(ctx, f, loop.ast.iter)
+    rets = [n for n in cfg.live if n.kind == "stmt" and isinstance(n.ast, ast.Return) and n.ast.value is not None]
+    counter = src(rets[0].ast.value) if rets else "counter"
+
+    def side_ok(e: Optional[ast.AST]) -> bool:
+        # 1 | len(<var>.<addr>.items) or 1
+        if isinstance(e, ast.Constant) and e.value == 1:
+            return True
+        if isinstance(e, ast.BoolOp) and isinstance(e.op, ast.Or) and len(e.values) == 2:
+            a, b = e.values
+            if isinstance(b, ast.Constant) and b.value == 1 and isinstance(a, ast.Call) and src(a.func) == "len" and a.args:
+                c = chain(a.args[0])
+                return bool(c) and c[0] == var and c[-1] in ("items", "_items") and "addr" in c[1]
+        return False
+
+    for path in loop_body_paths(cfg, loop):
+        if path[-1][0] is cfg.raise_exit:
+            continue
+        atoms = [(n.ast, lab == "T") for n, lab in path if n.kind == "cond" and lab in ("T", "F")]
+        poss = possible_classes(ctx, static, atoms, var)
+        if poss is not None and not poss:
+            continue
+        env: Dict[str, ast.AST] = {}
+        incs: List[ast.AST] = []
+        for node, lab in path:
+            if node.kind == "stmt" and isinstance(node.ast, ast.Assign) and isinstance(node.ast.targets[0], ast.Name):
+                env[node.ast.targets[0].id] = node.ast.value
+            if node.kind == "stmt" and isinstance(node.ast, ast.AugAssign) and src(node.ast.target) == counter:
+                if not isinstance(node.ast.op, ast.Add):
+                    incs.append(ast.Constant(value="<non-additive>"))
+                else:
+                    incs.append(node.ast.value)
+        rep.instance()
+        label = " & ".join(f"{snippet(t, 26)}={'T' if tr else 'F'}" for t, tr in atoms) or "unconditional"
+        is_group = poss is not None and poss <= {"AceGroup", "Acl"}
+        is_ace = poss is not None and poss == {"Ace"}
+        no_ace = poss is not None and "Ace" not in poss and not is_group
+        if is_group:
+            good = len(incs) == 1 and isinstance(incs[0], ast.Call) and src(incs[0]) == f"{var}.tcam_count()"
+            want = f"exactly {var}.tcam_count()"
+        elif no_ace:
+            good = not incs
+            want = "nothing (not an ACE)"
+        elif is_ace:
+            good = False
+            if len(incs) == 1:
+                v = incs[0]
+                if isinstance(v, ast.Constant) and v.value == 1:
+                    good = True
+                elif isinstance(v, ast.BinOp) and isinstance(v.op, ast.Mult):
+                    l = resolve_local(v.left, env)
+                    r = resolve_local(v.right, env)
+                    # a side counter initialised to 1 and conditionally replaced resolves to its last binding on the path
+                    good = side_ok(l) and side_ok(r)
+            want = "1, or (source members or 1) * (destination members or 1)"
+        else:
+            good = True
+            want = ""
+        if good:
+            rep.ok(f"AceGroup.tcam_count: path [{label}]", f"adds {' + '.join(snippet(i, 40) for i in incs) or '0'}", where=where(f, loop.ast))
+        else:
+            rep.violation("AceGroup.tcam_count", f"path [{label}] adds {' + '.join(snippet(i, 40) for i in incs) or '0'}", f"the estimate must add {want} for this kind of item: otherwise it is not 1 + the sum over ACEs of source x destination member counts and changes under grouping", where(f, loop.ast), inp="a grouped ACL with a heading-only block")
+
+
 def run(ctx: Ctx, rep: Report, tier: str) -> None:
+    r15_6(ctx, rep)
     r15_1(ctx, rep)
     r15_2(ctx, rep)
     r15_3(ctx, rep)
